@@ -571,8 +571,8 @@ class RefBreaker:
             self.edge_checks += 1
         for el in sorted({now - trip for (op, trip, _) in self.states if op})[:1]:
             b = ("check of a tripped breaker at cool-down " +
-                 ("-0.5s or earlier" if el < self.C - 0.25 else "-0.25s" if el < self.C else "exactly" if el == self.C
-                  else "+0.25s" if el <= self.C + 0.25 else "+0.5s or later"))
+                 ("-0.5s or earlier" if el < self.C - 0.25 else "-0.25s..-0.125s" if el < self.C else "exactly" if el == self.C
+                  else "+0.125s..+0.25s" if el <= self.C + 0.25 else "+0.5s or later"))
             self.buckets[b] = self.buckets.get(b, 0) + 1
         st = {s for s in self._expire(now) if (not s[0]) == closed}
         if not st:
@@ -1276,10 +1276,10 @@ def packed(fields):
     return st.integers(0, size - 1).map(decode)
 
 
-WAIT_OPTS = [None, None, None, None, -0.25, 0.0, 0.0, 0.25, 1.0]
+WAIT_OPTS = [None, None, None, None, None, -0.25, -0.125, 0.0, 0.0, 0.125, 0.25, 1.0]
 ADV_FIELDS = [("mode", ["abs", "abs", "cool", "cool", "expiry", "expiry", "expiry"]),
               ("q", [0.0, 0.25, 0.5, 1.0, 1.5, 2.0, 3.0]),
-              ("off", [0.0, -1.0, -0.5, -0.25, 0.0, 0.25, 0.5, 1.0])]
+              ("off", [0.0, -1.0, -0.5, -0.25, -0.125, 0.0, 0.125, 0.25, 0.5, 1.0])]
 
 
 def do_advance(h, mode, q, off):
